@@ -60,6 +60,10 @@ def run(spec):
     corpus = sorted(glob.glob(os.path.join(corpus_dir, '*.case')))
     if replay:
         txt = open(replay).read()
+        try:
+            txt = json.loads(txt).get('case', txt)    # replay files written by this check are JSON
+        except ValueError:
+            pass
         m = re.search(r'(case .*?endcase)', txt, flags=re.S)
         cases = [m.group(1) if m else txt]
     else:
